@@ -23,7 +23,7 @@ GROUP_ABS = {19: 1, 20: 2}
 
 BASE = dict(MaxTrig=2, MaxDup=1, MaxLoss=0, Triggers=('acquire', 'soft', 'hard', 'rekeyike', 'delike', 'dpd'),
             IkeDh='DhSame', ChildDh='DhNone', CookieThreshold=10, StartEstablished=True, MaxSpi=12,
-            AsPinned_C16=False, KnownToBothOnly=False)
+            AsPinned_C16=False, KnownToBothOnly=False, FreeRetx=False)
 
 SCENARIOS = {
     # established IKE_SA + 1 CHILD_SA, every trigger kind, duplication
@@ -33,6 +33,9 @@ SCENARIOS = {
     'estab_pfs':  dict(BASE, ChildDh='DhMismatch', Triggers=('acquire', 'soft', 'hard')),
     'estab_rekey_ke': dict(BASE, IkeDh='DhMismatch', Triggers=('rekeyike', 'soft', 'delike')),
     'estab3':     dict(BASE, MaxTrig=3, MaxDup=1),
+    'estab3_c09': dict(BASE, MaxTrig=3, MaxDup=1, KnownToBothOnly=True),
+    'live':       dict(BASE, MaxTrig=1, MaxDup=0, MaxLoss=1, KnownToBothOnly=True, FreeRetx=True),
+    'live2':      dict(BASE, MaxTrig=2, MaxDup=0, MaxLoss=0, KnownToBothOnly=True, FreeRetx=True),
     # from empty tables
     'init':       dict(BASE, StartEstablished=False, MaxTrig=2, Triggers=('acquire', 'hard', 'dpd')),
     'init_ke':    dict(BASE, StartEstablished=False, MaxTrig=2, IkeDh='DhMismatch', Triggers=('acquire',)),
@@ -80,7 +83,7 @@ ALL_PROPERTIES = ('MidMonotonic', 'ReplayIsFree', 'CookieFirst')
 
 
 def model_check(scname, sc=None, invariants=ALL_INVARIANTS, properties=ALL_PROPERTIES, workers=None, timeout=1500,
-                coverage=False):
+                coverage=False, spec='Spec', constraint=True):
     """Exhaustive TLC run of one scenario. Returns common.TlcResult."""
     sc = dict(sc or SCENARIOS[scname])
     inv = list(invariants)
@@ -90,7 +93,7 @@ def model_check(scname, sc=None, invariants=ALL_INVARIANTS, properties=ALL_PROPE
     try:
         cfg = os.path.join(tmp, f'{scname}.cfg')
         with open(cfg, 'w') as fh:
-            fh.write(cfg_text(sc, invariants=inv, properties=properties))
+            fh.write(cfg_text(sc, spec=spec, invariants=inv, properties=properties, constraint=constraint))
         return common.run_tlc('MC.tla', cfg=cfg, workers=workers, timeout=timeout, coverage=coverage)
     finally:
         shutil.rmtree(tmp, ignore_errors=True)
@@ -264,6 +267,9 @@ def replay_graph(g, paths=None, nproc=None, seed=0, limit=None):
     chunk = max(1, (len(paths) + nproc * 4 - 1) // (nproc * 4))
     jobs = [(lo, min(lo + chunk, len(paths)), seed) for lo in range(0, len(paths), chunk)]
     total = {'behaviours': 0, 'steps': 0, 'mismatches': [], 'actions': collections.Counter(), 'edges': set()}
+    import gc
+    gc.collect()
+    gc.freeze()
     ctx = multiprocessing.get_context('fork')
     with ctx.Pool(nproc) as pool:
         for r in pool.imap_unordered(_replay_slice, jobs):
@@ -273,4 +279,45 @@ def replay_graph(g, paths=None, nproc=None, seed=0, limit=None):
             total['actions'].update(r['actions'])
             total['edges'] |= r['edges']
     total['paths'] = len(paths)
+    return total
+
+
+def _fault_slice(args):
+    import ikereplay
+    lo, hi, seed = args
+    g = _G
+    res = {'runs': 0, 'hits': 0, 'violations': [], 'kinds': collections.Counter()}
+    for p in _PATHS[lo:hi]:
+        steps = [(g.edges[i][1], g.edges[i][2], g.states[g.edges[i][3]]) for i in p]
+        k = 1
+        while True:
+            done, bad, hit = ikereplay.fault_replay(g.sc, steps, k, seed=seed)
+            if hit is None:
+                break                       # fewer than k kernel requests in this behaviour
+            res['runs'] += 1
+            res['hits'] += 1
+            res['kinds'][hit.split()[0]] += 1
+            if bad is not None:
+                bad.update(actions=[describe(s[0]) for s in steps[:done + 1]], path=list(p), refuse_at=k, scenario=g.scname)
+                res['violations'].append(bad)
+            k += 1
+    return res
+
+
+def fault_enumeration(g, paths, nproc=None, seed=0):
+    """For every behaviour and every index of a NEWSA/DELSA request issued in it: re-run with that request refused."""
+    global _G, _PATHS
+    nproc = nproc or common.NCPU
+    _G, _PATHS = g, paths
+    chunk = max(1, (len(paths) + nproc * 4 - 1) // (nproc * 4))
+    jobs = [(lo, min(lo + chunk, len(paths)), seed) for lo in range(0, len(paths), chunk)]
+    total = {'runs': 0, 'violations': [], 'kinds': collections.Counter()}
+    import gc
+    gc.collect()
+    gc.freeze()
+    with multiprocessing.get_context('fork').Pool(nproc) as pool:
+        for r in pool.imap_unordered(_fault_slice, jobs):
+            total['runs'] += r['runs']
+            total['violations'] += r['violations']
+            total['kinds'].update(r['kinds'])
     return total
